@@ -530,7 +530,7 @@ def run(res, tier):
     try:
         std.run_lab(res, PID, tier, area="refresh", gens=["refresh"], gen_scenarios=gen_scenarios, run_impl=run_impl,
                     to_case=to_case, oracle=oracle, corr_name="RefreshModel (run_history) vs the running squid",
-                    n_quick=260, n_thorough=6000, seed_salt=12, kind_fn=kind_fn, nontrivial_fn=nontrivial_fn)
+                    n_quick=220, n_thorough=6000, seed_salt=12, kind_fn=kind_fn, nontrivial_fn=nontrivial_fn)
     finally:
         for sq in _state.get("sq", {}).values():
             try:
